@@ -258,6 +258,54 @@ fn extra_float_types(ctx: &Ctx, report: &mut Report) {
     both!("Cam16Qch", Cam16Qch<>, 3, [Z, Z, H]);
     both!("Cam16Qmh", Cam16Qmh<>, 3, [Z, Z, H]);
     both!("Cam16Qsh", Cam16Qsh<>, 3, [Z, Z, H]);
+    // the full CAM16 colour: five attributes bounded from below, a free hue; no array form, so the fields are named
+    macro_rules! full {
+        ($T:ty, $name:expr) => {{
+            let vals: [f64; 6] = [-3.0, -1e-6, 0.0, 0.5, 50.0, 1e6];
+            let n5 = 6usize.pow(5);
+            for idx in 0..(n5 as u64 + ctx.n(5_000, 300_000)) {
+                let mut x = [0.0f64; 5];
+                if (idx as usize) < n5 {
+                    let mut r = idx as usize;
+                    for k in 0..5 {
+                        x[k] = vals[r % 6];
+                        r /= 6;
+                    }
+                } else {
+                    for k in 0..5 {
+                        x[k] = match rng.below(4) { 0 => -rng.unit() * 10.0, 1 => 0.0, _ => rng.unit() * 120.0 };
+                    }
+                }
+                let hue = rng.range(-720.0, 720.0);
+                let c = Cam16::<$T> { lightness: x[0] as $T, chroma: x[1] as $T, hue: palette::hues::Cam16Hue::new(hue as $T), brightness: x[2] as $T, colorfulness: x[3] as $T, saturation: x[4] as $T };
+                let read = |c: &Cam16<$T>| -> Vec<f64> { vec![c.lightness as f64, c.chroma as f64, c.brightness as f64, c.colorfulness as f64, c.saturation as f64, c.hue.into_inner() as f64] };
+                let bits = |v: &Vec<f64>| -> Vec<u64> { v.iter().map(|x| x.to_bits()).collect() };
+                let xin = read(&c);
+                let inp = || json!({"lightness_chroma_brightness_colorfulness_saturation_hue": xin});
+                let y = c.clamp();
+                let mut z = c;
+                z.clamp_assign();
+                let mut sl = vec![c; 2];
+                sl[..].clamp_assign();
+                let ya = read(&y);
+                let inside = xin[..5].iter().all(|v| *v >= 0.0);
+                let want: Vec<f64> = xin.iter().enumerate().map(|(k, v)| if k < 5 && *v < 0.0 { 0.0 } else { *v }).collect();
+                m.evals(6);
+                let wa = Alpha { color: c, alpha: 1.5 as $T };
+                let wy = wa.clamp();
+                if !y.is_within_bounds() || c.is_within_bounds() != inside || sl[..].is_within_bounds() != true || vec![c; 2][..].is_within_bounds() != inside || (inside && bits(&ya) != bits(&xin)) || bits(&read(&y.clamp())) != bits(&ya) || bits(&read(&z)) != bits(&ya) || !sl.iter().all(|e| bits(&read(e)) == bits(&ya))
+                    || !ya.iter().zip(want.iter()).all(|(g, w)| g == w) || bits(&read(&wy.color)) != bits(&ya) || wy.alpha != 1.0 || wa.is_within_bounds() || (Alpha { color: c, alpha: 0.5 as $T }).is_within_bounds() != inside
+                {
+                    m.violate($name, "cam16_full_clamp_contract", inp(), json!({"clamp": ya, "clamp_assign": read(&z), "within_before": c.is_within_bounds(), "within_after": y.is_within_bounds()}), json!({"clamp": want, "within_before": inside}), "");
+                }
+                if (idx as usize) < n5 {
+                    m.cell(pvmon::rng::mix(pvmon::rng::hash_str($name), idx));
+                }
+            }
+        }};
+    }
+    full!(f32, "Cam16/f32");
+    full!(f64, "Cam16/f64");
     m.tolerance = Some("exact".into());
     m.sample(|| {
         let a: [f64; 3] = palette::cast::into_array(Cam16UcsJab::<f64>::new(120.0, -70.0, 10.0).clamp());
